@@ -1016,6 +1016,9 @@ func makeObject(props map[string]string, schema *openapi3.SchemaRef) (map[string
 	return result, nil
 }
 
+// maxSparseArrayIndex bounds the indexes of an array that was sent with gaps (the gaps are filled with nil).
+const maxSparseArrayIndex = 16000
+
 // example: map[0:map[key:true] 1:map[key:false]] -> [map[key:true] map[key:false]]
 func sliceMapToSlice(m map[string]any) ([]any, error) {
 	var result []any
@@ -1036,6 +1039,10 @@ func sliceMapToSlice(m map[string]any) ([]any, error) {
 		if k > max {
 			max = k
 		}
+	}
+	if max >= len(keys) && max >= maxSparseArrayIndex {
+		// the indexes are the client's: without a limit one short key makes the array as long as the client likes
+		return nil, fmt.Errorf("array index %d is too large for an array of %d items", max, len(keys))
 	}
 	for i := 0; i <= max; i++ {
 		val, ok := m[strconv.Itoa(i)]
